@@ -100,7 +100,53 @@ func shapeKey(c Config) string {
 	if c.Early != "" {
 		k += " stop-at-serve-start=" + c.Early
 	}
+	if c.StopFrom != "" {
+		k += " stop-from-worker=" + c.StopFrom
+	}
+	if c.DrainTO != "" {
+		k += " drain-timeout=" + c.DrainTO
+	}
 	return k
+}
+
+var (
+	stopFromModes = []string{"processor", "finished", "started"}
+	// connection option of the server's connection: rig default twice, a bare
+	// nats.Options literal (DrainTimeout 0), small nats.DrainTimeout values
+	drainTOs = []string{"", "", "bare", "1ms", "50ms"}
+)
+
+// workerStopConfig: Stop is issued from inside the request stream - by the
+// processor or an event handler, i.e. on a worker goroutine - by a shutdown
+// request S that has k1 requests in front of it and k-k1 behind it, all
+// received before Stop is called.
+//
+// Domain: the drain that Stop waits for must be able to finish without the
+// worker that is blocked in Stop: another worker exists (w >= 2), or (w = 1)
+// everything behind S fits into the work queue and nothing else is published
+// before Stop returned.  (A sole worker that calls Stop with more requests
+// behind it than the queue holds cannot be drained by any Stop that waits for
+// the hand-over into a bounded queue; see the probe VERIF_C20_SOLE_WORKER.)
+func workerStopConfig(rng *rand.Rand, w, q int, from, dur string, share bool, rep int) Config {
+	c := fill(rng, Config{W: w, Q: q, BClass: bClasses[rng.Intn(len(bClasses))], Dur: dur, Share: share, Rep: rep})
+	c.NSubj = 1 // one subscription: the position of S in the callback order is its position in the stream
+	c.StopFrom = from
+	c.K = pickK(rng, c)
+	c.K1 = rng.Intn(c.K + 1)
+	if dur == "gate" { // S must get a worker while the others are parked on the gate
+		c.K1 = imin(c.K1, w-1)
+	}
+	if w == 1 {
+		if c.K-c.K1 > q {
+			c.K1 = c.K - q
+			if dur == "gate" {
+				c.K1 = 0
+				c.K = imin(c.K, q)
+			}
+		}
+		c.Rest = "after"
+	}
+	return c
 }
 
 var earlyModes = []string{"nowait", "gosched", "sleep"}
@@ -134,6 +180,7 @@ func fill(rng *rand.Rand, c Config) Config {
 	}
 	c.StopUs = []int{0, 0, 0, 200, 1000}[rng.Intn(5)]
 	c.GateUs = []int{0, 100, 1000, 5000}[rng.Intn(4)]
+	c.DrainTO = drainTOs[rng.Intn(len(drainTOs))]
 	c.Seed = rng.Int63()
 	return c
 }
@@ -205,6 +252,28 @@ func buildSweep(run *ev.Run) []Config {
 				n++
 			}
 		}
+		// 16 configs: every w x q once with Stop issued from a worker goroutine
+		off = rng.Intn(3)
+		n = 0
+		for _, w := range sweepW {
+			for _, q := range sweepQ {
+				add(workerStopConfig(rng, w, q, stopFromModes[(n+off)%3], sweepDur[(n+off)%len(sweepDur)], rng.Intn(2) == 0, 0))
+				n++
+			}
+		}
+		// 4 configs: Stop under a backlog that needs far longer to be handed to
+		// the work queue than the connection's drain timeout (1 worker, short
+		// queue, slow handler)
+		for i, to := range []string{"bare", "1ms", "50ms", "1ms"} {
+			c := fill(rng, Config{W: 1, Q: []int{1, 2}[i%2], BClass: "10(q+w)", Dur: []string{"5ms", "gate"}[i/2], Share: i%2 == 1})
+			c.K = c.B
+			c.DrainTO = to
+			if c.Dur == "5ms" {
+				c.Dur, c.BClass, c.B, c.K = "20ms", "12(q+w)", 12*(c.Q+1), 12*(c.Q+1)
+			}
+			add(c)
+		}
+		out = append(out, soleWorkerProbe(rng, len(out))...)
 		return out
 	}
 	// thorough: full grid x handler mode x sharing x (all positions for tiny
@@ -263,6 +332,52 @@ func buildSweep(run *ev.Run) []Config {
 			}
 		}
 	}
+	// Stop issued from a worker goroutine: every w x q x caller x handler mode x sharing
+	for _, w := range sweepW {
+		for _, q := range sweepQ {
+			for _, from := range stopFromModes {
+				for _, d := range sweepDur {
+					for _, share := range []bool{false, true} {
+						add(workerStopConfig(rng, w, q, from, d, share, 0))
+					}
+				}
+			}
+		}
+	}
+	// Stop under a backlog that outlasts the connection's drain timeout
+	for rep := 0; rep < 4; rep++ {
+		for _, q := range []int{1, 2, 8} {
+			for _, to := range []string{"bare", "1ms", "50ms", "250ms"} {
+				for _, d := range []string{"20ms", "gate"} {
+					c := fill(rng, Config{W: 1 + rep%2, Q: q, BClass: "q+w+1", Dur: d, Share: rep >= 2, Rep: rep})
+					c.BClass, c.B = "backlog", q+c.W+12
+					c.K = c.B
+					c.DrainTO = to
+					add(c)
+				}
+			}
+		}
+	}
+	out = append(out, soleWorkerProbe(rng, len(out))...)
+	return out
+}
+
+// soleWorkerProbe (only with VERIF_C20_SOLE_WORKER=1, never part of the
+// default sweep): the sole worker calls Stop while more requests than the
+// queue holds are behind it.
+func soleWorkerProbe(rng *rand.Rand, idx int) []Config {
+	if os.Getenv("VERIF_C20_SOLE_WORKER") == "" {
+		return nil
+	}
+	var out []Config
+	for i, from := range stopFromModes {
+		c := fill(rng, Config{W: 1, Q: 1 + i, BClass: "2(q+w)", Dur: "1ms"})
+		c.NSubj, c.StopFrom, c.Rest, c.DrainTO = 1, from, "after", ""
+		c.K, c.K1 = c.B, 0
+		c.SoleProbe = true
+		c.Idx = idx + i
+		out = append(out, c)
+	}
 	return out
 }
 
@@ -289,7 +404,7 @@ type crash struct {
 // not run any more - the run is a violation / inconclusive by then anyway.
 var hangs atomic.Int64
 
-const maxHangs = 8
+const maxHangs = 4
 
 var startLine = regexp.MustCompile(`^START (\d+) `)
 
@@ -351,7 +466,15 @@ func runBatch(binary string, tag string, batch []Config, extraEnv []string) *bat
 	o := &batchOutcome{}
 	scratch := ev.ScratchDir()
 	pending := append([]Config(nil), batch...)
+	hungHere := false
 	for attempt := 0; len(pending) > 0; attempt++ {
+		if hungHere {
+			// children that hung at the same time report at the same time:
+			// let their parents count them before deciding to spend another
+			// watchdog period (scheduling of the run only, no verdict)
+			time.Sleep(time.Second)
+			hungHere = false
+		}
 		if attempt >= 6 || hangs.Load() >= maxHangs {
 			o.notRun = append(o.notRun, pending...)
 			o.notes = append(o.notes, fmt.Sprintf("batch %s: respawn budget exhausted (attempt %d, %d hung scenarios overall) with %d scenarios left", tag, attempt, hangs.Load(), len(pending)))
@@ -403,6 +526,7 @@ func runBatch(binary string, tag string, batch []Config, extraEnv []string) *bat
 				o.results = append(o.results, r)
 				if r.Restart {
 					hangs.Add(1)
+					hungHere = true
 				}
 				continue
 			}
@@ -436,7 +560,7 @@ var panicNorm = regexp.MustCompile(`0x[0-9a-fA-F]+|\d+`)
 
 func runC20(tier string, args []string) int {
 	run := ev.New("C20", tier, "exploration")
-	run.Rule("configuration sweep workers {1,2,4,8} x queue {1,2,8,64} x burst {1,q,q+w,q+w+1,2(q+w),10(q+w)} x handler {0,1ms,5ms,PRNG 0-3ms,gate released after Stop is called} x position of Stop (incl. position 0 issued right after `go Serve()` without waiting for the subscription, with no / Gosched / 1-200us yields so that Stop is called both before and after Serve is parked; otherwise k of b double-flushed into the server's NATS client first; the rest published concurrently with Stop and/or after it returned; one extra request after Stop returned in every scenario) x server connection shared with an unrelated subscription or not x 1-2 subjects x arrival pattern; every scenario runs a real FNatsServer against an embedded nats-server in a child process; distinct = (w, q, burst class, handler mode, stop-position class, rest mode, sharing, subjects)")
+	run.Rule("configuration sweep workers {1,2,4,8} x queue {1,2,8,64} x burst {1,q,q+w,q+w+1,2(q+w),10(q+w)} x handler {0,1ms,5ms,PRNG 0-3ms,gate released after Stop is called} x position of Stop (incl. position 0 issued right after `go Serve()` without waiting for the subscription, with no / Gosched / 1-200us yields so that Stop is called both before and after Serve is parked; otherwise k of b double-flushed into the server's NATS client first; the rest published concurrently with Stop and/or after it returned; one extra request after Stop returned in every scenario) x caller of Stop (harness goroutine, or a worker goroutine: the processor / started / finished event handler of a shutdown request placed inside the double-flushed stream, wherever the drain can finish without that worker) x server connection option DrainTimeout {default, bare Options literal = 0, 1ms, 50ms} incl. backlogs that outlast it x server connection shared with an unrelated subscription or not x 1-2 subjects x arrival pattern; every scenario runs a real FNatsServer against an embedded nats-server in a child process; distinct = (w, q, burst class, handler mode, stop-position class, rest mode, sharing, subjects)")
 	run.Assume("embedded nats-server v2 routes a PUB to the subscribers' outbound queues before it answers the publisher's PING, and a connection's PONG follows the MSGs queued before it (the double flush defines 'received before Stop', as the pinned TestShutdown does on one connection)")
 	run.Assume("nats.go SubscribeSync/Pending/NextMsg on the collector connection and Flush are correct (reply collector)")
 	run.Assume("the recording processor is the only FProcessor; handler durations are finite (the gate is opened after Stop is called, never after it returns)")
@@ -649,6 +773,18 @@ func runC20(tier string, args []string) int {
 		}
 		if r.Config.Race {
 			run.Add("scenarios_under_race_binary", 1)
+		}
+		if r.Config.StopFrom != "" {
+			run.Add("scenarios_stop_from_worker_goroutine_"+r.Config.StopFrom, 1)
+			if r.AtStop.Received-r.AtStop.Started > 0 {
+				run.Add("scenarios_stop_from_worker_with_requests_queued", 1)
+			}
+		}
+		if r.Config.DrainTO != "" {
+			run.Add("scenarios_server_conn_drain_timeout_"+r.Config.DrainTO, 1)
+			if d, err := time.ParseDuration(r.Config.DrainTO); r.Config.DrainTO == "bare" || (err == nil && r.StopMs > float64(d.Microseconds())/1000) {
+				run.Add("scenarios_stop_took_longer_than_conn_drain_timeout", 1)
+			}
 		}
 		if r.Config.Early != "" {
 			run.Add("scenarios_stop_right_after_go_serve", 1)
